@@ -52,6 +52,15 @@ func (x *Exec) addrWrites(addr ssa.Value, li *loopInfo) {
 				}
 				return
 			}
+			if pa, ok := r.X.Type().Underlying().(*types.Pointer); ok {
+				if at, ok := pa.Elem().Underlying().(*types.Array); ok {
+					prefix, lt := leafPrefix(at.Elem(), sel)
+					for _, lf := range leavesUnder(lt, prefix) {
+						li.heap[sliceKey(at.Elem(), lf)] = true
+					}
+					return
+				}
+			}
 			x.addrWrites(r.X, li)
 			return
 		}
@@ -73,6 +82,14 @@ func (x *Exec) addrWrites(addr ssa.Value, li *loopInfo) {
 				li.heap[sliceKey(sl.Elem(), lf.Path)] = true
 			}
 			return
+		}
+		if pa, ok := a.X.Type().Underlying().(*types.Pointer); ok {
+			if at, ok := pa.Elem().Underlying().(*types.Array); ok && !isByte(at.Elem()) {
+				for _, lf := range leavesOf(at.Elem()) {
+					li.heap[sliceKey(at.Elem(), lf.Path)] = true
+				}
+				return
+			}
 		}
 		x.addrWrites(a.X, li)
 	case *ssa.Global:
